@@ -25,6 +25,8 @@ def _L(ctx):
 
 
 def correspondence(ctx):
+    # history-sensitive stream first (a fresh process), and once more after the sweep
+    _cross_scheme(ctx)
     L = _L(ctx)
     # ---------------- model side, once: lines are scheme independent
     lines = []
@@ -81,7 +83,7 @@ def correspondence(ctx):
     _range_stream(ctx)
     _long_and_routes(ctx)
     _end_to_end(ctx)
-    _cross_scheme(ctx)
+    _cross_scheme(ctx, "c04-cross-after")
 
 
 def _oneliner(name, d):
@@ -349,9 +351,9 @@ def _end_to_end(ctx):
                 ctx.disagree(stream, "e2e %r %r" % (t, xt), impl, a, False, rep, spec=spec)
 
 
-def _cross_scheme(ctx):
+def _cross_scheme(ctx, label="c04-cross"):
     """the same constraint texts and the same tested text under several schemes, interleaved in one process"""
-    rng = ctx.rng("c04-cross")
+    rng = ctx.rng(label)
     tables = B.cross_tables(need_hash=False)
     work = []
     for _ in range(400 if ctx.thorough else 150):
